@@ -38,7 +38,7 @@ SWITCHES = [
     "reduce_affine_expression", "iterative_simplification",
 ]  # fmt: skip
 DEFAULT_ON = {"allow_derivative_aliases"}
-EVE = [None, "a[12]", "a.*"]  # eliminable_variable_expression: none / some / all algebraic unknowns
+EVE = [None, "a[12]", "a.*", "a1"]  # eliminable_variable_expression: none / some / all / one algebraic unknown(s)
 
 
 def neg(x):
@@ -253,7 +253,62 @@ def anchored_specs(tier):
     return out
 
 
+class PureSpec(FreeSpec):
+    """(G) purely algebraic models: no state, unknowns a1..ak tied to the input u by alias equations only (a1 = +-u,
+    a_i = +-a_{i-1}), plus an initial equation over the last unknown -- alias detection can empty the equation list."""
+
+    def __init__(self, signs, perm, ieq=True):
+        self.signs = tuple(signs)
+        self.k = self.n = len(signs)
+        self.perm = tuple(perm)
+        self.ieq = "pure" if ieq else None
+        self.items = ()
+
+    def key(self):
+        return ["pure", list(self.signs), list(self.perm), bool(self.ieq)]
+
+    def regular(self):
+        return True
+
+    def equations(self):
+        eqs = []
+        for i, sg in enumerate(self.signs):
+            w = V("u") if i == 0 else V("a%d" % i)
+            eqs.append(("eq", V("a%d" % (i + 1)), w if sg > 0 else neg(w)))
+        return eqs
+
+    def model(self):
+        decls = [Decl("u", prefix="input"), Decl("p", prefix="parameter", value=N(2))] + [Decl(n) for n in self.unknowns()]
+        eqs = self.equations()
+        init = [("eq", V("a%d" % self.k), B("*", N(3), V("p")))] if self.ieq else []
+        return Model("M", decls, [eqs[i] for i in self.perm], init_eqs=init)
+
+    def init_rows(self):
+        return [_lin_eq(e) for e in self.model().init_eqs]
+
+    def solution(self, s, u):
+        env = dict(PVAL)
+        env["u"] = Fraction(u)
+        prev = env["u"]
+        for i, sg in enumerate(self.signs):
+            prev = prev if sg > 0 else -prev
+            env["a%d" % (i + 1)] = prev
+        return env
+
+
+def pure_specs(tier):
+    out = []
+    for k in (1, 2, 3):
+        for signs in itertools.product((1, -1), repeat=k):
+            perms = list(itertools.permutations(range(k))) if tier == "thorough" or k < 3 else [tuple(range(k)), tuple(reversed(range(k)))]
+            for pm in perms:
+                out.append(PureSpec(signs, pm))
+    return out
+
+
 def make_spec(key):
+    if key and key[0] == "pure":
+        return PureSpec(key[1], key[2], key[3])
     if key and key[0] == "free":
         return FreeSpec(key[1], key[2], key[3])
     return Spec(*key)
@@ -570,6 +625,7 @@ def core_option_sets():
         (on("eliminate_constant_assignments"), None),
         (on("expand_mx"), EVE[2]),
         (on("expand_mx"), EVE[1]),
+        (on("expand_mx"), EVE[3]),
         (allon, EVE[2]),
         (allon, None),
         (off("detect_aliases"), EVE[2]),
@@ -581,7 +637,7 @@ def core_option_sets():
 def perm_option_sets():
     """The eliminating passes alone and together: used where only the order of the equation list varies."""
     c = core_option_sets()
-    return [c[1], c[2], c[3], c[5], c[8]]
+    return [c[1], c[2], c[3], c[6], c[9]]
 
 
 def plan(tier):
@@ -634,6 +690,9 @@ def plan(tier):
     # (D) non-triangular systems: alias cycles with inconsistent signs, mutually defined unknowns
     for sp in free_specs(tier):
         out.append((sp, "core"))
+    # (G) purely algebraic alias models with an initial equation
+    for sp in pure_specs(tier):
+        out.append((sp, "near" if sp.perm == tuple(range(sp.k)) else "core"))
     # (E) an initial equation next to the DAE (<= 1 special form, chain dependencies, source order)
     for nspecial in (0, 1):
         for pos in itertools.combinations(range(n), nspecial):
